@@ -42,9 +42,9 @@ def plan(tier):
     return {
         "level": "fault_enumeration",
         "shards": 16,
-        "budget_s": 50 if q else 900,
+        "budget_s": 50 if q else 700,
         "timeout_s": 420 if q else 2400,
-        "min_nontrivial": 120 if q else 2500,
+        "min_nontrivial": 60 if q else 1250,
         "required_counters": ["oracle_output_compare", "faults_fired", "reference_runs", "cases_soft_or_own",
                               "cases_failstop_all"],
         "rule": "case = (shape, fault set, perturbation seed); single faults enumerated over every (job, phase in "
@@ -208,6 +208,8 @@ def run_case(sh: Shard, case: dict) -> None:
         return
     if C.is_loop_output_not_reemitted(prog, res):
         mech = "C16/loop-output-not-reemitted"
+    elif C.is_scatter_join_mispaired(prog, res):
+        mech = "C16/scatter-join-mispaired-after-recovery"
     elif C.is_concurrent_recovery_drops_job(prog, res):
         mech = "C16/concurrent-recovery-drops-job"
     else:
@@ -226,7 +228,7 @@ def run_shard(sh: Shard) -> None:
     # the soft budget counts from here; the shard's own clock (which includes interpreter start-up
     # and imports) may overrun it by at most 60 s
     def spent():
-        return (time.time() - t_start > sh.plan["budget_s"]) or sh.time_left() < -60
+        return (time.time() - t_start > sh.plan["budget_s"]) or sh.time_left() < -150
 
     cases = gen_cases(sh)
     # shard by shape (one failure-free reference run per shape and shard), cases of a shard in seeded order
